@@ -120,7 +120,7 @@ FIELDS = {
     ('ProviderSummary', 'traits'): FieldSpec(('list', 'str')),
     ('AllocationRequest', 'resource_requests'): FieldSpec(
         ('list', ('obj', ac.AllocationRequestResource))),
-    ('AllocationRequest', 'mappings'): FieldSpec(('map', 'str', ('list', 'str'))),
+    ('AllocationRequest', 'mappings'): FieldSpec(('map', 'str', ('set', 'str'))),
     ('AllocationCandidates', 'allocation_requests'): FieldSpec(
         ('list', ('obj', ac.AllocationRequest))),
     ('AllocationCandidates', 'provider_summaries'): FieldSpec(
